@@ -23,6 +23,7 @@ pub mod hybchecks;
 pub mod c12check;
 pub mod c15check;
 pub mod c10check;
+pub mod c04check;
 
 use common::{Failure, ReplayFile, Tier, case_from};
 
@@ -30,6 +31,7 @@ use common::{Failure, ReplayFile, Tier, case_from};
 pub fn dispatch(prop: &str, tier: Tier, seed: u64) -> i32 {
     match prop {
         "C01" => hybchecks::check_c01(tier, seed),
+        "C04" => c04check::check_c04(tier, seed),
         "C05" => memchecks::check_c05(tier, seed),
         "C06" => fetchcheck::check_c06(tier, seed),
         "C10" => c10check::check_c10(tier, seed),
@@ -62,6 +64,7 @@ pub fn replay(rf: &ReplayFile) -> anyhow::Result<Option<Failure>> {
         ("C12", _) => c12check::exec_c12(&case_from(rf)?).failure,
         ("C15", _) => c15check::exec_c15(&case_from(rf)?).failure,
         ("C10", _) => c10check::exec_c10(&case_from(rf)?).failure,
+        ("C04", _) => c04check::exec_c04(&case_from(rf)?).failure,
         ("C14", _) => evcheck::exec_c14(&case_from(rf)?).failure,
         ("C05" | "C13" | "C18", _) => memchecks::replay_mem(&rf.property, case_from(rf)?),
         (p, s) => anyhow::bail!("no replay handler for {p}/{s}"),
